@@ -190,3 +190,6 @@ PROPS["C11"] = {
 
 PROPS["C10"]["kinds"] = ["tls", "conv", "cli", "sm"]
 PROPS["C10"]["rule"] += " sm: package-level SendMail and DialStartTLS + Client.SendMail against a scripted TCP server on the loopback interface x server behaviours {STARTTLS not offered, refused 454/502, 220 then garbage, 220 then close, real TLS upgrade, EHLO refused (HELO fallback)} x {with, without credentials}; oracle: only EHLO/HELO/STARTTLS/QUIT lines reach the server in plaintext, the call fails unless the upgrade succeeded (no model is involved in this kind)."
+
+PROPS["C14"]["kinds"] = ["trip", "cli", "c11"]
+PROPS["C14"]["trusted_base"] = TRIP_TB + CLI_TB
